@@ -35,7 +35,13 @@ RULE = (
     "ParameterSpace of 1-4 variables in generated order (random vectors of size 1-3 with per-component or shared "
     "parameters, deterministic float variables): untransform_vect(u) has reference-cdf == u on random components "
     "and lb+u(ub-lb) on deterministic ones, transform/untransform round trips, 1-D and 2-D inputs agree, "
-    "compute_samples shapes/supports/laws per column, EmpiricalStatistics against numpy on the same data.  "
+    "compute_samples shapes/supports/laws per column, EmpiricalStatistics against numpy on the same data; then a drawn "
+    "edit (remove_variable, filter in place or on a copy, a further random variable) and the same oracles on the edited "
+    "space against the edited reference.  Oracle 'parametric': ParametricStatistics on datasets of 1-3 variables of size "
+    "1-3 drawn from known laws, candidates among Normal/Uniform/Exponential/Logistic/Gumbel (+Gamma on skewed data): "
+    "mean/variance/std/min/max/range/quantile/probability (per-component, float and length-1 thresholds, both sides) "
+    "against the closed form of the FITTED law read from the object, P[X<=Q(p)] = p, and |parametric - empirical "
+    "probability| <= Kolmogorov distance of the fit (an identity).  "
     "Non-trivial = non-standard location/scale together with a probability in a tail (p<0.01 or p>0.99), or a "
     "space mixing random and deterministic variables; distinct = structural hash of the drawn case."
 )
@@ -157,7 +163,7 @@ class Law:
         elif family == "Gumbel":
             loc, sc = q["loc"], q["scale"]
             self.lo, self.hi, self.mean, self.std = -INF, INF, loc + sc * EULER, sc * math.pi / math.sqrt(6.0)
-            self._cdf = lambda x: math.exp(-math.exp(-(x - loc) / sc))
+            self._cdf = lambda x: 0.0 if (loc - x) / sc > 700.0 else math.exp(-math.exp((loc - x) / sc))
         else:
             raise AssertionError(family)
         self.exact_support = True
@@ -340,8 +346,18 @@ def space_cases(draw):
         variables[draw(st.integers(0, n_vars - 1))] = {"kind": "random", "name": names[0] + "r", "size": 1, "family": family, "how": "variable", "q": [draw(law_params(family))]}
     d = sum(v["size"] for v in variables)
     n_points = draw(st.integers(1, 3))
+    op = draw(st.sampled_from(["none", "remove", "remove", "filter", "filter_copy", "add"]))
+    edit = {"op": op}
+    if op in ("remove", "filter", "filter_copy"):
+        edit["var"] = draw(st.integers(0, 3))
+        edit["keep"] = draw(st.lists(st.booleans(), min_size=4, max_size=4))
+    elif op == "add":
+        family = draw(st.sampled_from(SPACE_FAMILIES))
+        size = draw(st.integers(1, 2))
+        edit["new"] = {"kind": "random", "name": "w_new", "size": size, "family": family, "how": "variable", "q": [draw(law_params(family))]}
+        edit["u_new"] = [draw(PROBS) for _ in range(3)]
     return {
-        "lib": draw(st.sampled_from(["SP", "OT"])), "variables": variables,
+        "lib": draw(st.sampled_from(["SP", "OT"])), "variables": variables, "edit": edit,
         "u": [[draw(PROBS) for _ in range(d)] for _ in range(n_points)],
         "n": draw(st.integers(50, 400)), "prob": draw(st.sampled_from([0.5, 0.1, 0.25, 0.9, 0.05, 0.99])),
         "rng": draw(st.integers(0, 2**31 - 2)),
@@ -558,110 +574,178 @@ def case_cross(p, ctx):
 
 
 # --------------------------------------------------------------------------- oracle: parameter space
+def add_to_space(space, lib: str, v: dict) -> list:
+    """Add one generated variable to the space; return its reference per component (Law or ("det", lb, ub))."""
+    if v["kind"] == "det":
+        lb = np.array(v["lb"], dtype=float)
+        ub = lb + np.array(v["w"], dtype=float)
+        space.add_variable(v["name"], size=v["size"], lower_bound=lb, upper_bound=ub)
+        return [("det", float(a), float(b)) for a, b in zip(lb, ub)]
+    cls = f"{lib}{v['family']}Distribution"
+    kws = [class_kwargs(v["family"], q) for q in v["q"]]
+    if v["how"] == "variable":
+        space.add_random_variable(v["name"], cls, size=v["size"], **kws[0])
+    else:
+        # "vector": one value per component and the size deduced; "vector_shared": [p] repeated over the given size
+        space.add_random_vector(v["name"], cls, size=v["size"] if v["how"] == "vector_shared" else 0, **{k: [kw[k] for kw in kws] for k in kws[0]})
+    return [Law(v["family"], v["q"][i if v["how"] == "vector" else 0]) for i in range(v["size"])]
+
+
 def build_space(p):
     from gemseo.algos.parameter_space import ParameterSpace
 
-    lib = p["lib"]
     space = ParameterSpace()
-    laws = []  # one entry per component, in the order of the variables: Law or ("det", lb, ub)
+    laws = []  # one list per variable, in the order of the variables
     for v in p["variables"]:
-        if v["kind"] == "det":
-            lb = np.array(v["lb"], dtype=float)
-            ub = lb + np.array(v["w"], dtype=float)
-            space.add_variable(v["name"], size=v["size"], lower_bound=lb, upper_bound=ub)
-            laws += [("det", float(a), float(b)) for a, b in zip(lb, ub)]
-            continue
-        cls = f"{lib}{v['family']}Distribution"
-        kws = [class_kwargs(v["family"], q) for q in v["q"]]
-        if v["how"] == "variable":
-            space.add_random_variable(v["name"], cls, size=v["size"], **kws[0])
-        else:
-            # "vector": one value per component and the size deduced; "vector_shared": [p] repeated over the given size
-            space.add_random_vector(v["name"], cls, size=v["size"] if v["how"] == "vector_shared" else 0, **{k: [kw[k] for kw in kws] for k in kws[0]})
-        laws += [Law(v["family"], v["q"][i if v["how"] == "vector" else 0]) for i in range(v["size"])]
+        laws.append(add_to_space(space, p["lib"], v))
     return space, laws
 
 
-def case_space(p, ctx):
-    reseed(p["rng"])
-    space, laws = build_space(p)
+def check_space_state(p, ctx, space, variables, laws_per_variable, U, n, where: str):
+    """Layout, transform/untransform and sampling oracles of a space against its reference.
+
+    Returns (samples, random names, sizes, column starts), or None when a known finding excludes the case.
+    """
+    laws = [law for group in laws_per_variable for law in group]
     d = len(laws)
-    names = [v["name"] for v in p["variables"]]
-    ctx.check(list(space.variable_names) == names and space.dimension == d, "space:layout", f"variables {space.variable_names} of dimension {space.dimension}")
-    random_names = [v["name"] for v in p["variables"] if v["kind"] == "random"]
-    ctx.check(list(space.uncertain_variables) == random_names, "space:layout", f"uncertain variables {space.uncertain_variables}, expected {random_names}")
-    U = np.array(p["u"], dtype=float)
+    names = [v["name"] for v in variables]
+    ctx.check(list(space.variable_names) == names and space.dimension == d, "space:layout", f"{where}: variables {space.variable_names} of dimension {space.dimension}, expected {names} of dimension {d}")
+    random_names = [v["name"] for v in variables if v["kind"] == "random"]
+    ctx.check(list(space.uncertain_variables) == random_names, "space:layout", f"{where}: uncertain variables {space.uncertain_variables}, expected {random_names}")
     X = np.empty_like(U)
     for r, u in enumerate(U):
         x = space.untransform_vect(u.copy())
-        ctx.check(isinstance(x, np.ndarray) and x.shape == (d,), "space:untransform", f"untransform_vect returns shape {getattr(x, 'shape', None)}")
+        ctx.check(isinstance(x, np.ndarray) and x.shape == (d,), "space:untransform", f"{where}: untransform_vect returns shape {getattr(x, 'shape', None)}")
         if p["lib"] == "SP" and any(math.isnan(x[c]) and not isinstance(law, tuple) and law.family == "Beta" for c, law in enumerate(laws)) \
                 and ctx.known("scipy_beta_ppf_nan"):
-            return
+            return None
         X[r] = x
         for c, law in enumerate(laws):
             if isinstance(law, tuple):
                 _, lb, ub = law
                 expected = lb + u[c] * (ub - lb)
                 ctx.check(abs(x[c] - expected) <= 4 * EPS * max(1.0, abs(lb), abs(ub)), "space:deterministic_affine",
-                          f"deterministic component {c}: untransform({u[c]}) = {x[c]!r}, affine map gives {expected!r}")
+                          f"{where}: deterministic component {c}: untransform({u[c]}) = {x[c]!r}, affine map gives {expected!r}")
             else:
                 back = law.cdf(x[c])
                 tail = min(u[c], 1 - u[c])
                 ctx.check(abs(back - u[c]) <= 1e-9 + 1e-6 * tail + resolution(law, x[c]), "space:untransform_is_icdf",
-                          f"random component {c} ({law.family} {law.q}): untransform({u[c]}) = {x[c]!r} whose reference cdf is {back!r}")
+                          f"{where}: random component {c} ({law.family} {law.q}): untransform({u[c]}) = {x[c]!r} whose reference cdf is {back!r}")
         # and back
         t = space.transform_vect(x.copy())
-        ctx.check(t.shape == (d,), "space:transform", f"transform_vect returns shape {t.shape}")
+        ctx.check(t.shape == (d,), "space:transform", f"{where}: transform_vect returns shape {t.shape}")
         for c, law in enumerate(laws):
             tail = min(u[c], 1 - u[c])
             if isinstance(law, tuple):
                 tol = 4 * EPS * max(1.0, abs(law[1]), abs(law[2])) / (law[2] - law[1]) + 4 * EPS
             else:
                 tol = 1e-9 + 1e-6 * tail + resolution(law, x[c])
-            ctx.check(abs(t[c] - u[c]) <= tol, "space:round_trip", f"component {c}: transform(untransform({u[c]})) = {t[c]!r}")
+            ctx.check(abs(t[c] - u[c]) <= tol, "space:round_trip", f"{where}: component {c}: transform(untransform({u[c]})) = {t[c]!r}")
             if not isinstance(law, tuple):
-                ctx.check(abs(t[c] - law.cdf(x[c])) <= 1e-9, "space:transform_is_cdf", f"random component {c}: transform({x[c]!r}) = {t[c]!r}, reference cdf {law.cdf(x[c])!r}")
+                ctx.check(abs(t[c] - law.cdf(x[c])) <= 1e-9, "space:transform_is_cdf", f"{where}: random component {c}: transform({x[c]!r}) = {t[c]!r}, reference cdf {law.cdf(x[c])!r}")
         if all(1e-4 <= v <= 1 - 1e-4 for v in u):
             x2 = space.untransform_vect(t.copy())
             for c, law in enumerate(laws):
                 s = (law[2] - law[1]) if isinstance(law, tuple) else law.std
-                ctx.check(abs(x2[c] - x[c]) <= 1e-7 * (s + abs(x[c])), "space:round_trip", f"component {c}: untransform(transform({x[c]!r})) = {x2[c]!r}")
+                ctx.check(abs(x2[c] - x[c]) <= 1e-7 * (s + abs(x[c])), "space:round_trip", f"{where}: component {c}: untransform(transform({x[c]!r})) = {x2[c]!r}")
     # 2-D input
     X2 = space.untransform_vect(U.copy())
-    ctx.check(X2.shape == U.shape and bool(np.array_equal(X2, X)), "space:2d_equals_1d", "untransform_vect of a 2-D array differs from the row-wise results", rows=X2, expected=X)
+    ctx.check(X2.shape == U.shape and bool(np.array_equal(X2, X)), "space:2d_equals_1d", f"{where}: untransform_vect of a 2-D array differs from the row-wise results", rows=X2, expected=X)
     T2 = space.transform_vect(X.copy())
     T1 = np.array([space.transform_vect(x.copy()) for x in X])
-    ctx.check(T2.shape == U.shape and bool(np.array_equal(T2, T1)), "space:2d_equals_1d", "transform_vect of a 2-D array differs from the row-wise results")
+    ctx.check(T2.shape == U.shape and bool(np.array_equal(T2, T1)), "space:2d_equals_1d", f"{where}: transform_vect of a 2-D array differs from the row-wise results")
+    # ---- reported supports of the random variables
+    for v, group in zip(variables, laws_per_variable):
+        if v["kind"] == "random":
+            support = np.asarray(space.get_support(v["name"]), dtype=float)
+            ctx.check(support.shape == (v["size"], 2), "space:support", f"{where}: get_support({v['name']}) has shape {support.shape}")
+            for i, law in enumerate(group):
+                btol = 8 * EPS * max([1.0] + [abs(e) for e in (law.lo, law.hi) if math.isfinite(e)])
+                ctx.check(close(support[i, 0], law.lo, btol) and close(support[i, 1], law.hi, btol), "space:support",
+                          f"{where}: support of {v['name']}[{i}] is {support[i].tolist()}, analytical [{law.lo}, {law.hi}]")
     # ---- samples: one column per random component, in the order of the uncertain variables
     random_laws = [law for law in laws if not isinstance(law, tuple)]
-    n = p["n"]
-    samples = np.asarray(space.compute_samples(n), dtype=float)
-    ctx.check(samples.shape == (n, len(random_laws)), "space:samples", f"compute_samples({n}) has shape {samples.shape}, expected {(n, len(random_laws))}")
-    for c, law in enumerate(random_laws):
-        col = samples[:, c]
-        ctx.check(bool(np.all((col >= law.lo) & (col <= law.hi))), "space:samples_in_support", f"column {c}: sample outside the support [{law.lo}, {law.hi}]")
-        dn = kolmogorov(col, law)
-        _track(ctx, "max_kolmogorov_times_sqrt_n", dn * math.sqrt(n))
-        ctx.check(dn < 4.0 / math.sqrt(n), "space:samples_follow_law", f"column {c} ({law.family} {law.q}): Kolmogorov distance {dn:.4f} of {n} samples")
-    as_dict = space.compute_samples(3, as_dict=True)
-    ctx.check(len(as_dict) == 3, "space:samples", f"compute_samples(3, as_dict=True) has {len(as_dict)} items")
-    sizes = {v["name"]: v["size"] for v in p["variables"] if v["kind"] == "random"}
-    start = {}
-    offset = 0
+    sizes = {v["name"]: v["size"] for v in variables if v["kind"] == "random"}
+    start, offset = {}, 0
     for name in random_names:
         start[name] = offset
         offset += sizes[name]
+    if not random_laws:
+        return None, random_names, sizes, start
+    samples = np.asarray(space.compute_samples(n), dtype=float)
+    ctx.check(samples.shape == (n, len(random_laws)), "space:samples", f"{where}: compute_samples({n}) has shape {samples.shape}, expected {(n, len(random_laws))}")
+    for c, law in enumerate(random_laws):
+        col = samples[:, c]
+        ctx.check(bool(np.all((col >= law.lo) & (col <= law.hi))), "space:samples_in_support", f"{where}: column {c}: sample outside the support [{law.lo}, {law.hi}]")
+        dn = kolmogorov(col, law)
+        _track(ctx, "max_kolmogorov_times_sqrt_n", dn * math.sqrt(n))
+        ctx.check(dn < 4.0 / math.sqrt(n), "space:samples_follow_law", f"{where}: column {c} ({law.family} {law.q}): Kolmogorov distance {dn:.4f} of {n} samples")
+    as_dict = space.compute_samples(3, as_dict=True)
+    ctx.check(len(as_dict) == 3, "space:samples", f"{where}: compute_samples(3, as_dict=True) has {len(as_dict)} items")
     for item in as_dict:
-        ctx.check(sorted(item) == sorted(random_names), "space:samples", f"as_dict sample has keys {sorted(item)}")
+        ctx.check(sorted(item) == sorted(random_names), "space:samples", f"{where}: as_dict sample has keys {sorted(item)}")
         for name in random_names:
             value = np.asarray(item[name], dtype=float)
-            ctx.check(value.shape == (sizes[name],), "space:samples", f"as_dict sample of {name} has shape {value.shape}")
+            ctx.check(value.shape == (sizes[name],), "space:samples", f"{where}: as_dict sample of {name} has shape {value.shape}")
             for i, v in enumerate(value):
                 law = random_laws[start[name] + i]
-                ctx.check(law.lo <= v <= law.hi, "space:samples_in_support", f"as_dict sample of {name}[{i}] = {v} outside [{law.lo}, {law.hi}]")
+                ctx.check(law.lo <= v <= law.hi, "space:samples_in_support", f"{where}: as_dict sample of {name}[{i}] = {v} outside [{law.lo}, {law.hi}]")
+    return samples, random_names, sizes, start
+
+
+def apply_edit(p, space, variables, laws, U):
+    """Apply the drawn edit to the real space and to the reference; returns (space, variables, laws, U, label)."""
+    edit = p.get("edit") or {"op": "none"}
+    op, n_vars = edit["op"], len(variables)
+    widths = [v["size"] for v in variables]
+    offsets = np.concatenate([[0], np.cumsum(widths)]).astype(int)
+
+    def columns(keep):
+        idx = [c for i in keep for c in range(offsets[i], offsets[i + 1])]
+        return U[:, idx]
+
+    if op == "remove" and n_vars >= 2:
+        gone = edit["var"] % n_vars
+        space.remove_variable(variables[gone]["name"])
+        keep = [i for i in range(n_vars) if i != gone]
+        return space, [variables[i] for i in keep], [laws[i] for i in keep], columns(keep), f"after remove_variable({variables[gone]['name']})"
+    if op in ("filter", "filter_copy") and n_vars >= 2:
+        keep = [i for i in range(n_vars) if edit["keep"][i % len(edit["keep"])]]
+        if not keep or len(keep) == n_vars:
+            keep = [i for i in range(n_vars) if i != edit["var"] % n_vars]
+        kept_names = [variables[i]["name"] for i in keep]
+        out = space.filter(kept_names, copy=op == "filter_copy")
+        return out, [variables[i] for i in keep], [laws[i] for i in keep], columns(keep), f"after filter({kept_names}, copy={op == 'filter_copy'})"
+    if op == "add":
+        v = edit["new"]
+        new_laws = add_to_space(space, p["lib"], v)
+        extra = np.array([[edit["u_new"][(r + i) % len(edit["u_new"])] for i in range(v["size"])] for r in range(U.shape[0])], dtype=float)
+        return space, [*variables, v], [*laws, new_laws], np.hstack([U, extra]), f"after adding the random variable {v['name']}"
+    return None
+
+
+def case_space(p, ctx):
+    reseed(p["rng"])
+    space, laws = build_space(p)
+    variables = p["variables"]
+    U = np.array(p["u"], dtype=float)
+    state = check_space_state(p, ctx, space, variables, laws, U, p["n"], "initial space")
+    if state is None:
+        return
+    samples, random_names, sizes, start = state
     # ---- empirical statistics on these samples
     check_statistics(p, ctx, samples, random_names, sizes, start)
+    # ---- a drawn edit of the space, then the same oracles against the edited reference
+    edited = apply_edit(p, space, variables, laws, U)
+    if edited is not None:
+        space2, variables2, laws2, U2, label = edited
+        removed_random = sum(v["kind"] == "random" for v in variables) - sum(v["kind"] == "random" for v in variables2)
+        if check_space_state(p, ctx, space2, variables2, laws2, U2, max(50, p["n"] // 2), label) is None:
+            return
+        ctx.cls(f"edit:{p['edit']['op']}")
+        if removed_random > 0 and any(v["kind"] == "random" for v in variables2):
+            ctx.cls("edit_removes_a_random_variable_among_several")
+    d = sum(len(g) for g in laws)
     kinds = {v["kind"] for v in p["variables"]}
     ctx.cls(f"space:{p['lib']}", f"space_dim:{d}")
     for v in p["variables"]:
@@ -669,7 +753,7 @@ def case_space(p, ctx):
             ctx.cls(f"space_family:{v['family']}", f"space_how:{v['how']}")
     if len(kinds) == 2:
         ctx.cls("mixed_random_deterministic", "nontrivial")
-        ctx.nontriv(("space", p["lib"], p["variables"], p["u"]))
+        ctx.nontriv(("space", p["lib"], p["variables"], p["u"], p.get("edit")))
         if p["variables"][0]["kind"] == "det":
             ctx.cls("deterministic_variable_first")
     if any(v["size"] > 1 for v in p["variables"] if v["kind"] == "random"):
@@ -726,10 +810,158 @@ def check_statistics(p, ctx, samples, names, sizes, start):
         compare(got, expected, f"probability(greater={greater})", 4 * EPS)
 
 
-ORACLES = {"law": case_law, "cross": case_cross, "space": case_space}
+# --------------------------------------------------------------------------- oracle: parametric statistics
+GENERATORS = ["Normal", "Uniform", "Exponential", "Logistic", "Gumbel", "Gamma", "Triangular", "Weibull"]
+SKEWED = {"Exponential", "Gamma", "Weibull"}
+FITTED = ["Normal", "Uniform", "Exponential", "Logistic", "Gumbel"]
+Z_VALUES = [-1.5, -0.5, 0.0, 0.3, 1.0, 2.0, -0.1, 0.7]
+
+
+@st.composite
+def parametric_cases(draw):
+    n_vars = draw(st.integers(1, 3))
+    names = draw(st.lists(st.sampled_from(NAMES), min_size=n_vars, max_size=n_vars, unique=True))
+    variables = []
+    generators = sorted(SKEWED) if draw(st.integers(0, 3)) == 0 else GENERATORS  # skewed data admit the Gamma candidate
+    for name in names:
+        size = draw(st.integers(1, 3))
+        comps = [{"gen": draw(st.sampled_from(generators)), "loc": draw(LOC), "scale": draw(SCALE), "shape": draw(st.sampled_from([1.0, 1.5, 2.0, 3.5]))} for _ in range(size)]
+        variables.append({"name": name, "size": size, "components": comps, "z": draw(st.lists(st.sampled_from(Z_VALUES), min_size=size, max_size=size, unique=True))})
+    pool = list(FITTED)
+    if all(c["gen"] in SKEWED for v in variables for c in v["components"]):
+        pool.append("Gamma")  # the three-parameter Gamma fit is well conditioned on skewed data only
+    candidates = draw(st.lists(st.sampled_from(pool), min_size=1, max_size=3, unique=True))
+    return {
+        "variables": variables, "candidates": candidates, "selection": draw(st.sampled_from(["best", "best", "first"])),
+        "n": draw(st.integers(30, 200)), "prob": draw(st.sampled_from([0.5, 0.1, 0.25, 0.9, 0.05, 0.99, 0.001])),
+        "scalar_z": draw(st.sampled_from(Z_VALUES)), "rng": draw(st.integers(0, 2**31 - 2)),
+    }
+
+
+def generate_data(p) -> np.ndarray:
+    """Columns drawn from the generating laws with a private RandomState (the oracles are identities of the FITTED law)."""
+    rs = np.random.RandomState(p["rng"] % (2**32))
+    n, cols = p["n"], []
+    for v in p["variables"]:
+        for c in v["components"]:
+            g, k = c["gen"], c["shape"]
+            base = {
+                "Normal": lambda: rs.standard_normal(n), "Uniform": lambda: rs.random_sample(n), "Exponential": lambda: rs.standard_exponential(n),
+                "Logistic": lambda: rs.logistic(size=n), "Gumbel": lambda: rs.gumbel(size=n), "Gamma": lambda: rs.standard_gamma(k, n),
+                "Triangular": lambda: rs.triangular(0.0, 0.3, 1.0, n), "Weibull": lambda: rs.weibull(k, n),
+            }[g]()
+            cols.append(c["loc"] + c["scale"] * base)
+    return np.column_stack(cols)
+
+
+def fitted_law(name: str, parameters) -> Law:
+    """The closed-form law of a fitted OpenTURNS distribution from its native parameters."""
+    q = [float(v) for v in parameters]
+    if name == "Normal":
+        return Law("Normal", {"mu": q[0], "sigma": q[1]})
+    if name == "Uniform":
+        return Law("Uniform", {"a": q[0], "w": q[1] - q[0]})
+    if name == "Exponential":
+        return Law("Exponential", {"rate": q[0], "loc": q[1]})
+    if name == "Logistic":
+        return Law("Logistic", {"mu": q[0], "scale": q[1]})
+    if name == "Gumbel":
+        return Law("Gumbel", {"scale": q[0], "loc": q[1]})
+    if name == "Gamma":
+        return Law("Gamma", {"shape": q[0], "scale": 1.0 / q[1], "loc": q[2]})
+    raise AssertionError(name)
+
+
+def case_parametric(p, ctx):
+    from gemseo.datasets.dataset import Dataset
+    from gemseo.uncertainty.statistics.empirical_statistics import EmpiricalStatistics
+    from gemseo.uncertainty.statistics.parametric_statistics import ParametricStatistics
+
+    reseed(p["rng"])
+    data = generate_data(p)
+    names = [v["name"] for v in p["variables"]]
+    sizes = {v["name"]: v["size"] for v in p["variables"]}
+    dataset = Dataset.from_array(data, variable_names=names, variable_names_to_n_components=sizes)
+    stats = ParametricStatistics(dataset, list(p["candidates"]), selection_criterion=p["selection"])
+    empirical = EmpiricalStatistics(dataset)
+    # ---- the fitted laws, read from the object
+    laws, cols, offset = {}, {}, 0
+    for v in p["variables"]:
+        entry = stats.distributions[v["name"]]
+        entries = entry if isinstance(entry, list) else [entry]
+        ctx.check(len(entries) == v["size"], "parametric:layout", f"{len(entries)} marginal distributions for {v['name']} of size {v['size']}")
+        group = []
+        for e in entries:
+            ctx.check(e.name in p["candidates"], "parametric:layout", f"selected distribution {e.name} is not a candidate {p['candidates']}")
+            group.append(fitted_law(e.name, e.value.distribution.getParameter()))
+            ctx.cls(f"fitted:{e.name}")
+        laws[v["name"]] = group
+        cols[v["name"]] = data[:, offset : offset + v["size"]]
+        offset += v["size"]
+
+    def per_component(got, what):
+        ctx.check(sorted(got) == sorted(names), "parametric:layout", f"{what}: keys {sorted(got)}")
+        out = {}
+        for name in names:
+            g = np.asarray(got[name], dtype=float).ravel()
+            ctx.check(g.shape == (sizes[name],), "parametric:layout", f"{what}[{name}] has shape {g.shape}, expected ({sizes[name]},)")
+            out[name] = g
+        return out
+
+    mean, var, std = per_component(stats.compute_mean(), "mean"), per_component(stats.compute_variance(), "variance"), per_component(stats.compute_standard_deviation(), "standard deviation")
+    low, high, rng = per_component(stats.compute_minimum(), "minimum"), per_component(stats.compute_maximum(), "maximum"), per_component(stats.compute_range(), "range")
+    prob = p["prob"]
+    quant = per_component(stats.compute_quantile(prob), "quantile")
+    for name in names:
+        for i, law in enumerate(laws[name]):
+            mtol = 1e-9 * law.std + 64 * EPS * (abs(law.mean) + abs(law.lo if math.isfinite(law.lo) else 0.0))
+            where = f"{name}[{i}] fitted {law.family} {law.q}"
+            ctx.check(abs(mean[name][i] - law.mean) <= mtol, "parametric:moments", f"{where}: mean {mean[name][i]!r}, closed form {law.mean!r}")
+            ctx.check(abs(std[name][i] - law.std) <= mtol, "parametric:moments", f"{where}: standard deviation {std[name][i]!r}, closed form {law.std!r}")
+            ctx.check(abs(var[name][i] - law.std**2) <= 2 * mtol * law.std + 1e-300, "parametric:moments", f"{where}: variance {var[name][i]!r}, closed form {law.std**2!r}")
+            btol = 8 * EPS * max([1.0] + [abs(e) for e in (law.lo, law.hi) if math.isfinite(e)])
+            ctx.check(close(low[name][i], law.lo, btol) and close(high[name][i], law.hi, btol), "parametric:bounds",
+                      f"{where}: minimum/maximum {low[name][i]!r}/{high[name][i]!r}, support [{law.lo}, {law.hi}]")
+            ctx.check(close(rng[name][i], law.hi - law.lo, 2 * btol), "parametric:bounds", f"{where}: range {rng[name][i]!r}, support [{law.lo}, {law.hi}]")
+            back = law.cdf(quant[name][i])
+            ctx.check(abs(back - prob) <= 1e-9 + 1e-6 * min(prob, 1 - prob) + resolution(law, quant[name][i]), "parametric:quantile",
+                      f"{where}: quantile({prob}) = {quant[name][i]!r} whose reference cdf is {back!r}")
+    # ---- probabilities: one threshold per component, a float, a length-1 array
+    per_comp = {v["name"]: np.array([law.mean + z * law.std for law, z in zip(laws[v["name"]], v["z"])]) for v in p["variables"]}
+    first = {name: float(laws[name][0].mean + p["scalar_z"] * laws[name][0].std) for name in names}
+    forms = {"per_component": per_comp, "float": first, "length_1": {k: np.array([t]) for k, t in first.items()}, "own_quantile": quant}
+    for form, thresh in forms.items():
+        for greater in (True, False):
+            got = per_component(stats.compute_probability(thresh, greater=greater), "probability")
+            emp = empirical.compute_probability(thresh, greater=greater)
+            for name in names:
+                ts = np.broadcast_to(np.asarray(thresh[name], dtype=float).ravel(), (sizes[name],)) if np.size(thresh[name]) == 1 else np.asarray(thresh[name], dtype=float)
+                for i, law in enumerate(laws[name]):
+                    f = law.cdf(ts[i])
+                    expected = 1.0 - f if greater else f
+                    where = f"P[{name}[{i}] {'>=' if greater else '<='} {ts[i]!r}] ({form} thresholds, fitted {law.family} {law.q})"
+                    ctx.check(abs(got[name][i] - expected) <= 1e-9 + resolution(law, ts[i]), "parametric:probability", f"{where} = {got[name][i]!r}, closed form {expected!r}")
+                    if form == "own_quantile":
+                        target = 1.0 - prob if greater else prob
+                        ctx.check(abs(got[name][i] - target) <= 1e-9 + 1e-6 * min(prob, 1 - prob) + resolution(law, ts[i]), "parametric:probability_of_quantile",
+                                  f"{where} = {got[name][i]!r}, expected {target!r}")
+                    # |F_fitted(t) - F_n(t)| <= sup_x |F_fitted(x) - F_n(x)| by definition: a deterministic bound
+                    dn = kolmogorov(cols[name][:, i], law)
+                    e = float(np.asarray(emp[name], dtype=float).ravel()[i])
+                    ctx.check(abs(got[name][i] - e) <= dn + 1e-9, "parametric:agrees_with_empirical",
+                              f"{where} = {got[name][i]!r}, empirical {e!r}, Kolmogorov distance of the fit {dn!r}")
+    if any(s > 1 for s in sizes.values()):
+        ctx.cls("parametric_variable_size>1", "nontrivial")
+        ctx.nontriv(("parametric", p["variables"], p["candidates"], p["selection"], p["prob"]))
+    ctx.cls(f"parametric_candidates:{len(p['candidates'])}")
+    ctx.sample({"oracle": "parametric", "case": p})
+
+
+ORACLES = {"law": case_law, "cross": case_cross, "space": case_space, "parametric": case_parametric}
 
 
 def run(ctx):
     ctx.drive("law", law_cases(), case_law, quick=1400, thorough=4000)
     ctx.drive("cross", cross_cases(), case_cross, quick=700, thorough=2000)
     ctx.drive("space", space_cases(), case_space, quick=500, thorough=1500)
+    ctx.drive("parametric", parametric_cases(), case_parametric, quick=300, thorough=1200)
